@@ -15,8 +15,8 @@ CLAIM = dict(
          'every sequence of <= 5 start/characters/end/exit operations (symbolic choice of names, attribute sets and texts from a vocabulary that contains markup '
          'characters) yields a document that expat accepts and that carries exactly the model tree; RLE index elements (decimal, hex and float X values, incl. values a last bit or 1e-10 off the run) expand to the original values.',
     note='Trusted: z3, CrossHair, py2smt with its model of str iteration / ord / dict lookup / str.encode(ascii, xmlcharrefreplace) / f-string numeric reference; '
-         'expat (oracle parser on concrete output). Outside: whole documents produced from log files by ScanHTML, LisToHtml, LASToHTML, SVGWriter/Plot (file I/O, numpy): '
-         'only the shared writer, the RLE index writer and the structure of the RP66V1 XML index (entries per table / frame type, run-length entries) are decided.',
+         'expat (oracle parser on concrete output). Outside: whole documents produced from log files by ScanHTML, LisToHtml, SVGWriter/Plot (file I/O, numpy): '
+         'the shared writer, the RLE index writer, the structure of the RP66V1 XML index (entries per table / frame type, run-length entries) and the LAS HTML summary of a bounded family of LAS files are decided.',
 )
 META = dict(
     explanation='_encode is encoded per character (strings are handled character-wise by the loop in _encode, which is part of the encoded AST); '
@@ -147,11 +147,17 @@ def obligations(tier):
            '(ASCII, Latin-1 letters, superscript, Greek, CJK, markup characters); parsed back from the file by expat',
            ['util.XmlWrite.XmlStream.__init__/__enter__/_encode/characters/startElement', 'XmlWrite.Element'], harness='C18_xml', func='xml_file_declared_encoding',
            timeout=170 if q else 600, unblock=True, stubs=['scratch file (the stream opens the path itself)']),
-        Ob('xml_index_one_entry_per_table_and_frame_type', 'ch', 'reference-encoded RP66V1 files: 1..2 logical files, 1..2 frame types with 1..6 frame records in 5 interleavings, float X '
+        Ob('xml_index_one_entry_per_table_and_frame_type', 'ch', 'reference-encoded RP66V1 files: 1..2 logical files, 1..2 frame types with 1..6 frame records in 5 interleavings (numbered 1..N or with a gap), float X '
            '(regular / irregular / 0.1 n), optional producer-private table (record type 128), one visible record per logical record or shared; index written with private on/off',
            ['RP66V1.IndexXML.write_logical_file_sequence_to_xml', 'write_logical_file_to_xml', 'log_pass_to_XML', 'frame_array_to_XML', 'frame_channel_to_XML', 'xml_rle_write',
             '_write_xml_eflr_object', 'xml_write_value', 'RP66V1.core.LogicalFile.LogicalIndex', 'common.Rle.create_rle'],
            harness='C18_index', func='index_xml', timeout=170 if q else 600, parts=15, unblock=True, stubs=['scratch file for LogicalIndex (path based API)']),
+        Ob('las_html_summary_rows', 'ch', 'reference-rendered LAS 2.0 files (2..4 curves, 1..3 frames, wrapped or not, optional parameter section with a mnemonic repeated 0..2 times, '
+           'values and descriptions from 6 strings with markup characters and quotes) through LASToHTML.las_file_to_html: the document parses, every header section has one table row per line of the '
+           'file (mnemonic, units, typed value, description unchanged), the array table one row per curve, the returned summary names the sections, channels and frame count',
+           ['LAS.LASToHTML.las_file_to_html', 'las_section_to_html', 'las_section_members_to_html_table', 'write_file_array', 'write_forward_index', 'write_file_metadata',
+            'common.ToHTML.html_write_table', 'util.XmlWrite.XhtmlStream', 'LAS.core.LASRead.LASRead'],
+           harness='C18_las', func='las_html_summary', timeout=170 if q else 600, parts=18, unblock=True, stubs=['scratch files (the converter is path based)']),
         Ob('rle_float_index_entries_expand', 'ch', 'float X sequences of length 2..5: 4 start values (0.1, 1000, 1.6e12, negative) x 4 strides x per-value deviation from the '
            'extrapolated value (none, one unit in the last place, 1e-10 and 1e-7 relative, a quarter stride)',
            ['RP66V1.IndexXML.xml_rle_write', 'common.Rle.create_rle', 'common.Rle.RLEItem.add/values', 'util.XmlWrite.Element'], harness='C18_xml', func='rle_float_entries',
